@@ -88,9 +88,18 @@ class GPTNeoXAssignment(WorkAssignment):
         elif set(self.pipe_parallel_peers) == set(self.data_parallel_peers):
             self.pipe_parallel_peer_group = self.data_parallel_group
         else:
-            self.pipe_parallel_peer_group = dist.new_group(
-                self.pipe_parallel_peers,
-            )
+            # dist.new_group() must be called by every rank in the same order
+            # with the same ranks so every rank creates the peer group of
+            # every pipeline stage and keeps its own.
+            for pipe_rank in range(topology.get_dim('pipe')):
+                peers = [
+                    r
+                    for r in range(topology.world_size())
+                    if topology.get_coord(r).pipe == pipe_rank
+                ]
+                group = dist.new_group(peers)
+                if pipe_rank == self.pipe_parallel_rank:
+                    self.pipe_parallel_peer_group = group
 
         worker_loads = [0.0 for _ in self.pipe_parallel_peers]
         self._inv_assignments = {
